@@ -25,6 +25,8 @@ pub struct Stats {
     pub cells: BTreeMap<String, u64>,
     pub fired: [u64; 5],
     pub recycled: u64,
+    /// runs repeated in a process with pristine process-wide state
+    pub fresh_runs: u64,
     pub views: BTreeMap<String, u64>,
     pub filtered: u64,
     pub mmu_faults: u64,
@@ -574,6 +576,15 @@ impl<'a> Exec<'a> {
         let pre = self.rs.model.clone();
         let pre_mem = self.nontable_snapshot();
         let cr3_before = w.cpu.cr3;
+        // update_flags with the EMPTY flag set is only issued where the page is not mapped exactly (the
+        // outcome is then defined by the state alone); on a mapped page it would leave an entry
+        // that may read as unused, about which the documentation says nothing
+        if let Step::UpdateFlags { size, page, flags: 0 } = step {
+            if pre.class(*page, *size) == crate::model::Class::MappedExact {
+                self.stats.filtered += 1;
+                return Ok(());
+            }
+        }
         // SetFlagsP misuse filter (result undefined by the docs)
         if let Step::SetFlagsP { .. } = step {
             if spec(&pre, step, &[]).map(|s| s.filtered).unwrap_or(false) {
